@@ -10,7 +10,7 @@ cleanup() { git -C /repo worktree remove --force "$W" 2>/dev/null; rm -rf "$W"; 
 trap cleanup EXIT
 cd "$W"
 PYTHONPATH="$W" MPLBACKEND=Agg timeout 600 /venv/bin/python -W ignore "$S/demo.py" >/dev/null 2>&1; d0=$?
-if ! git apply "$S/patch.diff" 2>/dev/null; then echo "RESULT $P $(basename $(dirname $(dirname $S)))/$(basename $S): patch does not apply"; exit 3; fi
+if ! git apply "$S/patch.diff" 2>/dev/null && ! git apply --3way "$S/patch.diff" 2>/dev/null; then echo "RESULT $P $(basename $(dirname $(dirname $S)))/$(basename $S): patch does not apply"; exit 3; fi
 PYTHONPATH="$W" MPLBACKEND=Agg timeout 600 /venv/bin/python -W ignore "$S/demo.py" >/dev/null 2>&1; d1=$?
 if [ -z "$NOTESTS" ]; then
   t=$(PYTHONPATH="$W" MPLBACKEND=Agg timeout 1200 /venv/bin/python -m pytest -q -p no:cacheprovider --timeout=900 2>&1 | tail -1)
